@@ -97,9 +97,9 @@ impl ParseData for FromMetaOptions {
 
         match self.base.data {
             Data::Struct(ref data) => {
-                if data.is_tuple() && data.len() > 1 {
+                if data.is_tuple() && data.len() != 1 {
                     errors.push(
-                        Error::custom("`FromMeta` cannot be derived for tuple structs with more than one field")
+                        Error::custom("`FromMeta` can only be derived for tuple structs with exactly one field")
                             .with_span(&self.base.ident),
                     );
                 }
